@@ -532,6 +532,18 @@ def fam_c15(tier, seed):
     if tier == "thorough":
         for l in sk.bs_family(2, 2, [0, 1, 30], need_sell=False):
             sks.append(mk(i, "p", l, variant="panic", mode="QPFH", wit=WIT)); i += 1
+    # the Schwab converter on hostile field spellings (concrete samples)
+    dates = ["04/25/2023", "04/25/2023 as of 04/24/2023", "04/25/2023 as of", "as of", "as of 04/25/2023", " as of ", "04/25/2023 as of\u00a004/24/2023", "as of\u00a0", "13/45/2023", "04/25/23", "",
+             "04/25/2023 as of 04/24/2023 as of 01/01/2020", "é", "04/25/2023\u00a0as of 04/24/2023", "02/30/2024", "99999999999/1/1"]
+    amounts = ["$1", "-$1,000.50", "$", "-", "--", "1e5", "$1.2.3", ",", "$9999999999999999999999999999999999", "０", " ", "1_0", "+5", "$-5"]
+    for a in ("Buy", "Cash Dividend", "Stock Plan Activity", "NRA Tax Adj", "Mystery"):
+        for d in dates:
+            r = {"Date": d.encode().decode("unicode_escape") if "\\u" in d else d, "Action": a, "Symbol": "A", "Description": "x", "Quantity": "1", "Price": "$2", "Fees & Comm": "", "Amount": "$3"}
+            sks.append({"id": f"x{i}", "base": BASES[0], "lines": [], "opts": {"variant": "convert", "row": r, "wit": 0}}); i += 1
+    for a in ("Buy", "Cash Dividend"):
+        for am in amounts:
+            r = {"Date": "04/25/2023", "Action": a, "Symbol": "A", "Description": "x", "Quantity": am, "Price": am, "Fees & Comm": am, "Amount": am}
+            sks.append({"id": f"x{i}", "base": BASES[0], "lines": [], "opts": {"variant": "convert", "row": r, "wit": 0}}); i += 1
     # magnitudes up to the top of the decimal range (valid signs, unbounded size, overflow condition modelled)
     for l in sk.bs_family(1, 1, [0, 30], need_sell=False):
         sks.append(mk(i, "h", l, variant="huge", mode="QPF", wit=0)); i += 1
@@ -549,8 +561,14 @@ def fam_c17(tier, seed):
             if len({x[2] for x in l if x[0] == "S"}) <= (1 if len(l) >= 3 and tier == "quick" else 2):
                 sks.append(mk(i, "t", l, base=base, wit=WIT, mode="PF")); i += 1
     b2 = list(sk.bs_family(2, 2, [0, 30], need_sell=True))
-    for l in sk.with_events(b2, ("D", "X", "C"), [0, 1], ratios=("2",), max_events=1):
+    for l in sk.with_events(b2, ("D", "X", "C", "M", "U"), [0, 1], ratios=("2",), max_events=1):
         sks.append(mk(i, "t", l, base=BASES[2], wit=WIT, mode="PF")); i += 1
+    # event amounts in a foreign currency are echoed in that currency (USD: 2 minor units, JPY: 0)
+    for cur in ("USD", "JPY", "EUR"):
+        for k in "DCM":
+            l = [fx_line("B", 0, "GBP", "GBP"), fx_line(k, 1, cur, "GBP"), fx_line("S", 30, "GBP", "GBP")]
+            sks.append(mk(i, "e", l, base=BASES[2], wit=WIT, mode="PF")); i += 1
+        sks.append(mk(i, "e", [fx_line("B", 0, cur, "GBP"), fx_line("S", 30, "GBP", cur)], base=BASES[2], wit=WIT, mode="PF")); i += 1
     return sks
 
 
